@@ -264,7 +264,10 @@ impl LineIndex {
             return None;
         }
 
-        let offset = self.line_start(line)? + column - 1;
+        // `column` is caller-supplied and unbounded: a sum that does not fit in
+        // usize is certainly past the end of the text (wrapping would alias it to
+        // a small, valid-looking offset).
+        let offset = self.line_start(line)?.checked_add(column - 1)?;
         if offset < self.text_len {
             Some(offset)
         } else {
